@@ -201,6 +201,9 @@ class Ctx:
             m = re.search(r"(\d+) states generated, (\d+) distinct states found", out)
             gen = int(m.group(1)) if m else 0
             dist = int(m.group(2)) if m else 0
+            amb = out.count('<<"AMBIGUOUS"')
+            if amb:
+                self.extra["catalogue_ambiguous_sites"] = self.extra.get("catalogue_ambiguous_sites", 0) + amb
             if "Model checking completed. No error has been found." in out:
                 return (f, True, None, None, (gen, dist))
             um = re.search(r'<<"UNMATCHED", (\d+), (.*)>>\s*$', out, re.M)
